@@ -80,6 +80,14 @@ func observe(f func() (any, error)) (o Obs) {
 	return Obs{Kind: "val", Value: v}
 }
 
+func compileObs(expr string) Obs {
+	progress(expr)
+	return observe(func() (any, error) {
+		_, err := jmespath.Compile(expr)
+		return nil, err
+	})
+}
+
 func search(expr string, data any) Obs {
 	progress(expr)
 	return observe(func() (any, error) { return jmespath.Search(expr, data) })
